@@ -67,7 +67,10 @@ func (v *notation_) GetClass() col.NotationClassLike {
 // Canonical
 
 func (v *notation_) FormatValue(value any) (source string) {
-	source = v.formatter_.FormatValue(value)
+	// A notation is shared by every instance of a collection class (it backs
+	// their String() methods) so each call gets its own formatter state.
+	var formatter = Formatter().MakeWithMaximum(v.formatter_.GetMaximum())
+	source = formatter.FormatValue(value)
 	return source
 }
 
